@@ -287,6 +287,25 @@ func C01(r *core.Run) {
 				mu.Unlock()
 			}(k)
 		}
+		// ... and clients that announce an upload, send only part of it and disconnect (whatever the proxy and the agent do
+		// with the truncated request must not leak into anybody else's exchange)
+		for k := 0; k < 16; k++ {
+			wg.Add(1)
+			go func(k int) {
+				defer wg.Done()
+				time.Sleep(time.Duration(k*23) * time.Millisecond)
+				tok := fmt.Sprintf("s%dr%dpart%d", r.Seed, round, k)
+				full := tokRequest("POST", tok, 300+k*977, 0, "h"+tok+".example", tokBytes(tok, "req", 20000+k*3000), nil)
+				if conn, err := net.DialTimeout("tcp", t.addr, 5*time.Second); err == nil {
+					conn.Write(full[:len(full)-(15000+k*1000)])
+					time.Sleep(time.Duration(30+k*5) * time.Millisecond)
+					conn.Close()
+				}
+				mu.Lock()
+				results = append(results, result{tok: tok, method: "POST", size: 300 + k*977, reqSize: 20000 + k*3000, aborted: true})
+				mu.Unlock()
+			}(k)
+		}
 		wg.Wait()
 		time.Sleep(100 * time.Millisecond)
 
